@@ -100,9 +100,23 @@ let delay_store (labels : M.elabel array) (i : int) : M.elabel array option =
       | x :: r -> if k = i - 1 then x :: moved :: r else x :: ins (k + 1) r in
     Some (Array.of_list (ins 0 without))
 
+(* number of tokens the run-length encoded trace stands for *)
+let expanded_size (trace : string) : int =
+  if trace = "" then 0 else
+    List.fold_left (fun a g ->
+        match String.index_opt g '*' with
+        | Some i -> a + List.length (split_on ',' (String.sub g 0 i)) * int_of_string (String.sub g (i + 1) (String.length g - i - 1))
+        | None -> a + List.length (split_on ',' g)) 0 (split_on ';' trace)
+
 let eval case impl =
   ignore case;
   match split_on ' ' impl with
+  | trace :: rest when expanded_size trace > 4_000_000 ->
+    (* an event loop that spun for seconds (a connection stuck in flight): the run has failed its client checks anyway;
+       the log is not replayed *)
+    let get k = List.fold_left (fun a t -> match split_on '=' t with [k'; v] when k' = k -> v | _ -> a) "?" rest in
+    let clients_ok = get "clients" = "ok" in
+    ("TRACE-TOO-LONG clients=" ^ get "clients", (if clients_ok then [] else [("C14", "-")]) @ [("C15", "-")])
   | trace :: rest ->
     let toks = List.map tok_of (expand trace) in
     (* serve_epoll returns from inside a batch (StopAccepting): close the last batch *)
